@@ -23,6 +23,8 @@ Families
            the same fixed / random observer, mixed) with clearly different radius + offset, all
            creation orders, optionally a non-visible object in between
   contm    2-3 objects of different inradius / offset in the same container, all orders
+  conto    one object in a polygonal workspace (wide / corridor): orientation alphabet (none, yaw,
+           pitch, roll, pitch+roll, random roll, random pitch) x shape (cube, plate, pole)
   mode2d   the same constructs in 2D compatibility mode
 """
 
@@ -852,6 +854,55 @@ def multi_programs():
 
 
 # ------------------------------------------------------------------------------------------
+# conto: containment of tilted objects (the flat-object special case needs pitch = roll = 0)
+# ------------------------------------------------------------------------------------------
+ORIENTS = {
+    "none": "",
+    "yaw": "facing 40 deg",
+    "pitch": "with pitch 90 deg",
+    "roll": "with roll 90 deg",
+    "pitch+roll": "with pitch 90 deg, with roll 90 deg",
+    "rollR": "with roll Range(0, 90 deg)",
+    "pitchR": "with pitch Range(0, 90 deg)",
+}
+SHAPES_O = {
+    "cube": "",
+    "plate": "with width 2, with length 2, with height 0.1",  # height smallest
+    "pole": "with width 0.4, with length 0.4, with height 3",  # height largest
+}
+CONTAINERS_O = {
+    "wide": "workspace = Workspace(PolygonalRegion([0@0, 6@0, 6@6, 0@6]))",
+    # narrower than the planar diameter of the plate, wide enough for its true extent when tilted
+    "corridor": "workspace = Workspace(PolygonalRegion([0@0, 1.5@0, 1.5@8, 0@8]))",
+}
+
+
+def conto(orient, shape, container, quick=False):
+    text = CONTAINERS_O[container] + "\nego = new Object " + _join("in workspace", SHAPES_O[shape], ORIENTS[orient]) + "\n"
+    return {
+        "id": f"conto:{container}/{shape}/{orient}",
+        "family": "conto",
+        "tag": f"conto[{container},{shape},{orient}]",
+        "text": text,
+        "mode2D": False,
+        "dim": 2,
+        "quick": quick,
+    }
+
+
+def conto_programs():
+    quick = {
+        ("roll", "plate", "wide"),
+        ("roll", "plate", "corridor"),
+        ("pitch", "plate", "wide"),
+        ("rollR", "plate", "wide"),
+        ("roll", "pole", "wide"),
+        ("pitch+roll", "cube", "corridor"),
+    }
+    return [conto(o, s, c, quick=(o, s, c) in quick) for o, s, c in itertools.product(ORIENTS, SHAPES_O, CONTAINERS_O)]
+
+
+# ------------------------------------------------------------------------------------------
 # mode2d
 # ------------------------------------------------------------------------------------------
 def mode2d_programs():
@@ -880,7 +931,7 @@ def mode2d_programs():
 
 
 def all_programs():
-    progs = cont2d_programs() + cont3d_programs() + rh_programs() + rh3_programs() + vis_programs() + multi_programs() + mode2d_programs()
+    progs = cont2d_programs() + cont3d_programs() + rh_programs() + rh3_programs() + vis_programs() + multi_programs() + conto_programs() + mode2d_programs()
     ids = [p["id"] for p in progs]
     if len(set(ids)) != len(ids):
         raise RuntimeError("duplicate program ids")
